@@ -910,6 +910,22 @@ C09_MAPKEY_PART = (G, "gosym_part", dict(name="c09_generic_map_keys", entry="int
                                desc="the key position of a generic map alias / of a generic record's map field filled by a type argument: accepted iff the same map written out is accepted, "
                                     "and a rejection names the file in which the instantiation is written"))
 
+C09_YAML_TYPEARGS_PART = (G, "gosym_part", dict(name="c09_yaml_type_argument_unions", entry="internal/zzverif.C09YamlTypeArgs", oracle=True,
+                               required_sites=("unmarshal-does-not-panic", "validate-does-not-panic", "union-written-as-a-type-argument-has-the-verdict-of-the-union-written-in-place"),
+                               assumptions=["yaml.Node documents through yardl's own UnmarshalYAML (engine model of yaml.v3 decoding, validated by the native replays on the real decoder) and the real dsl.Validate",
+                                            "metamorphic oracle: the verdict on the same union written in place; unions: [int, float], [int, int], [int, null], [null], [uint64, size], [null, int, string], "
+                                            "[string, int, string]; the instantiated form as a record field, an alias target, a protocol step"],
+                               desc="a well- or ill-formed union written as a type argument (`!generic {name: G, args: [U]}`) through the real YAML layer (real source positions) and the real "
+                                    "validator: rejected iff the union written in place is rejected"))
+
+
+C09_UNARY_PART = (G, "gosym_part", dict(name="c09_unary_operand", entry="internal/zzverif.C09UnaryOperand",
+                               required_sites=("no-panic", "negation-is-defined-iff-subtraction-is"),
+                               assumptions=["metamorphic oracle: the verdict of the real validator on `x - x` (unary minus is not documented; an arithmetic operator is defined for numeric operands)",
+                                            "operand: a field of an integer (4 primitives), floating-point / complex (3), string, vector, fixed vector, array, dynamic array, map, optional, union or record type"],
+                               desc="`-x` as a computed field for a symbolic operand field: accepted by the real dsl.Validate iff `x - x` is"))
+
+
 PARTS = {
     "C08": [
         C08_RESERVED_PART,   # identifiers derived from model names are never C++ / Python reserved words
@@ -1086,6 +1102,7 @@ PARTS = {
                                     "compareTypes(old, new) in kind, nested type pairs and case indices wherever both directions are accepted")),
     ],
     "C19": [
+        C09_UNARY_PART,   # a negation that no target language can evaluate is not a computed field
         C08_SWITCH_PART,   # a !switch means the same in C++, Python and MATLAB: each case returns its own expression
         C08_REF_RETURNS_PART,   # the C++ accessor of a computed field yields the field's value, not a dangling reference to a temporary
         (PYG, "c19_py_computed", dict()),
@@ -1151,6 +1168,8 @@ PARTS = {
     ],
     "C10": [C06_REMOVALS_PART, C09_CROSSNS_PART, C13_LAYOUT_PARTS[0]] + [C10_FORMS[f] for f in (0, 1, 3, 4, 5)] + [only_thorough(C10_FORMS[f]) for f in (2, 6)] + C10_SHAPES + [C10_GRAPH_PART, C10_PARSER_PART, C10_DEFUSE_PART, C10_CYCLE_SPELLINGS_PART, C10_BUDGET_PART] + C10_YAML,  # C10_GRAPH_PART: no hang / panic of the package loader for any import graph
     "C09": [
+        C09_YAML_TYPEARGS_PART,
+        C09_UNARY_PART,
         C09_MAPKEY_PART,
         C09_CROSSNS_PART,
         (G, "gosym_part", dict(name="c09_base", entry="internal/zzverif.C09Base", required_sites=("base-accepted",), assumptions=C09_ASSUME,
